@@ -28,7 +28,8 @@ def esc_bytes(data, style=0):
     """Render bytes inside a non-raw string literal.
     style 0: readable; 1: three-digit octal escapes for non-printables; 2: \\xNN for everything;
     3: three-digit octal for everything; 4: as 0 here -- the string renderer then shortens octal escapes
-    to one or two digits where the next character allows it."""
+    to one or two digits where the next character allows it; 5: \\xNN with upper-case digits for everything;
+    6: \\xNN with digits of either case."""
     out = []
     for b in data:
         if b == 0x22:
@@ -41,6 +42,11 @@ def esc_bytes(data, style=0):
             out.append("\\%03o" % b)
         elif style == 2:
             out.append("\\x%02x" % b)
+        elif style == 5:
+            out.append("\\x%02X" % b)
+        elif style == 6:
+            h = "%02x" % b
+            out.append("\\x" + (h[0].upper() if (b + len(out)) % 2 else h[0]) + (h[1] if (b + len(out)) % 3 else h[1].upper()))
         elif 0x20 <= b < 0x7f:
             out.append(chr(b))
         elif style == 1:
